@@ -8,7 +8,7 @@ mkdir -p .build evidence
 mods=$(cd lean && ls Relic/Props/*.lean | sed 's/\.lean$//; s#/#.#g')
 (cd lean && lake build $mods relic_driver)
 cp /repo/go.sum harness/go.sum
-(cd harness && go build -tags verif -o ../.build/vh ./cmd/vh)
+(cd harness && go build -tags verif -o ../.build/vh ./cmd/vh && go build -tags verif -o ../.build/vh13 ./cmd/vh13)
 for t in tools/*/; do
   [ -f "$t/go.mod" ] && (cd "$t" && go build -o "../../.build/$(basename "$t")" .)
 done
